@@ -1,0 +1,48 @@
+//! Verification hooks (cargo feature `verif-hooks`, off by default).
+//!
+//! Read-only observation points and re-exports of crate-private items used by the
+//! external runtime-monitoring harness. Nothing in here changes library behaviour.
+
+#[cfg(feature = "client")]
+pub use crate::happy_eyeballs::{EyeballSet, HappyEyeballsError};
+
+#[cfg(feature = "server")]
+pub use crate::rewind::Rewind;
+
+#[cfg(feature = "client")]
+use crate::client::conn::dns::{IpVersion, SocketAddrs};
+
+/// Run the crate-private `SocketAddrs::sort_preferred` on a list of addresses.
+#[cfg(feature = "client")]
+pub fn sort_preferred(
+    addrs: Vec<std::net::SocketAddr>,
+    prefer: Option<IpVersion>,
+) -> Vec<std::net::SocketAddr> {
+    let mut addrs: SocketAddrs = addrs.into_iter().collect();
+    addrs.sort_preferred(prefer);
+    addrs.into_iter().collect()
+}
+
+/// Run the crate-private `SocketAddrs::set_port` on a list of addresses.
+#[cfg(feature = "client")]
+pub fn set_port(addrs: Vec<std::net::SocketAddr>, port: u16) -> Vec<std::net::SocketAddr> {
+    let mut addrs: SocketAddrs = addrs.into_iter().collect();
+    addrs.set_port(port);
+    addrs.into_iter().collect()
+}
+
+/// Read-only view of one pool key, taken under the pool's own lock.
+#[cfg(feature = "client")]
+#[derive(Debug, Clone, PartialEq, Eq)]
+pub struct PoolEntry {
+    /// Debug rendering of the pool key
+    pub key: String,
+    /// Number of entries in the idle list for this key
+    pub idle: usize,
+    /// Number of waiter senders queued for this key
+    pub waiting: usize,
+    /// Number of queued waiter senders whose receiver is still alive
+    pub waiting_live: usize,
+    /// Is the in-flight (multiplexed connection attempt) marker set
+    pub connecting: bool,
+}
